@@ -7,7 +7,8 @@
 (* the logged post-state.  The harness logs the rows losslessly as the     *)
 (* difference d = <<<<item, new lower bound or 0>>, ...>> between the rows *)
 (* returned by get_frequent_items(NO_FALSE_NEGATIVES, 0) after this event  *)
-(* and after the previous event on the same object.                        *)
+(* and after the previous event on the same object (all counters in dense  *)
+(* form cd when more than 64 rows changed).                                *)
 (* Items are small integers (index in the driver's universe); the ghost    *)
 (* truth is accumulated by the contract from the logged INPUTS only.       *)
 (* Clause names: unprefixed = statement of C12; "doc-..." = coherence of   *)
@@ -24,8 +25,18 @@ Apply(c, d) == IF Len(d) = 0 THEN c ELSE
   LET df == DeltaFn(d)
       dom == {x \in DOMAIN c \cup DOMAIN df : IF x \in DOMAIN df THEN df[x] > 0 ELSE TRUE}
   IN [x \in dom |-> IF x \in DOMAIN df THEN df[x] ELSE c[x]]
+\* many changes / many rows: the harness adds the dense form cd (position x = lower bound of item x, 0 = no row)
+Dense(cd) == [x \in {k \in DOMAIN cd : cd[k] > 0} |-> cd[x]]
+NewRows(c, e) == IF Has(e, "cd") THEN Dense(e.cd) ELSE Apply(c, e.d)
+NoChange(e) == IF Has(e, "cd") THEN FALSE ELSE Len(e.d) = 0
 \* a logged list of rows <<item, est, lb, ub>> as the function item -> lb
-RowsFn(rows) == [x \in {rows[p][1] : p \in DOMAIN rows} |-> (rows[CHOOSE p \in DOMAIN rows : rows[p][1] = x])[3]]
+RowsFnSmall(rows) == [x \in {rows[p][1] : p \in DOMAIN rows} |-> (rows[CHOOSE p \in DOMAIN rows : rows[p][1] = x])[3]]
+RowsFn(e) == IF Has(e, "cd") THEN Dense(e.cd) ELSE RowsFnSmall(e.rows)
+\* the dense form, when present, is exactly the logged rows
+DenseOK(e) == IF Has(e, "cd")
+              THEN /\ \A p \in DOMAIN e.rows : e.rows[p][1] \in DOMAIN e.cd /\ e.cd[e.rows[p][1]] = e.rows[p][3]
+                   /\ Cardinality({k \in DOMAIN e.cd : e.cd[k] > 0}) = Len(e.rows)
+              ELSE TRUE
 Distinct(s) == Cardinality(ToSet(s)) = Len(s)
 NonInc(s) == \A k \in 1..(Len(s) - 1) : s[k] >= s[k + 1]
 
@@ -49,7 +60,7 @@ TNew == IsEvent("New") /\ LET e == Log[l] IN
           /\ Scalars(e, obj'[e.id])
           /\ UNCHANGED blob
 TUpdate == IsEvent("Update") /\ LET e == Log[l]
-                                    c2 == Apply(obj[e.id].cnt, e.d)
+                                    c2 == NewRows(obj[e.id].cnt, e)
                                     n == UpdPost(obj[e.id], e.x, e.w, c2, e.off) IN
           /\ Chk("bracket", Bracket(n))
           /\ Chk("epsilon", EpsOK(n))
@@ -59,11 +70,11 @@ TUpdate == IsEvent("Update") /\ LET e == Log[l]
           /\ UNCHANGED blob
 TUpdateZero == IsEvent("UpdateZero") /\ LET e == Log[l] IN
           /\ UpdateZero(e.id)
-          /\ Chk("zero-weight-ignored", Len(e.d) = 0)
+          /\ Chk("zero-weight-ignored", NoChange(e))
           /\ Scalars(e, obj[e.id])
           /\ UNCHANGED blob
 TMerge == IsEvent("Merge") /\ LET e == Log[l]
-                                  c2 == Apply(obj[e.dst].cnt, e.d)
+                                  c2 == NewRows(obj[e.dst].cnt, e)
                                   n == MergePost(obj[e.dst], obj[e.src], c2, e.off) IN
           /\ Chk("total-weight", e.total = n.total)
           /\ Chk("bracket", Bracket(n))
@@ -71,8 +82,9 @@ TMerge == IsEvent("Merge") /\ LET e == Log[l]
           /\ Merge(e.dst, e.src, c2, e.off)
           /\ Scalars(e, obj'[e.dst])
           /\ UNCHANGED blob
-TObs == IsEvent("Obs") /\ LET e == Log[l]  o == obj[e.id]  rf == RowsFn(e.rows) IN
+TObs == IsEvent("Obs") /\ LET e == Log[l]  o == obj[e.id]  rf == RowsFn(e) IN
           /\ Scalars(e, o)
+          /\ Chk("driver:dense-rows", DenseOK(e))
           /\ Chk("doc-rows-stable", rf = o.cnt)
           /\ RowsOK(e.rows, o, e.off)
           \* published epsilon = 3.5 / 2^lg_max_map_size, logged as epsilon * 2^20
@@ -101,7 +113,8 @@ TObs == IsEvent("Obs") /\ LET e == Log[l]  o == obj[e.id]  rf == RowsFn(e.rows) 
 TCopy == IsEvent("Copy") /\ LET e == Log[l] IN
           /\ Copy(e.src, e.dst)
           /\ Scalars(e, obj'[e.dst])
-          /\ Chk("copy-rows", RowsFn(e.rows) = obj[e.src].cnt)
+          /\ Chk("driver:dense-rows", DenseOK(e))
+          /\ Chk("copy-rows", RowsFn(e) = obj[e.src].cnt)
           /\ UNCHANGED blob
 TDrop == IsEvent("Drop") /\ LET e == Log[l] IN Destroy(e.id) /\ UNCHANGED blob
 
@@ -115,7 +128,8 @@ TSer == IsEvent("Ser") /\ LET e == Log[l] IN
 TDeser == IsEvent("Deser") /\ LET e == Log[l]  b == blob[e.blob] IN
           /\ Chk("C09:total-weight", e.total = b.st.total)
           /\ Chk("C09:maximum-error", e.off = b.st.offset)
-          /\ Chk("C09:rows", RowsFn(e.rows) = b.st.cnt)
+          /\ Chk("driver:dense-rows", DenseOK(e))
+          /\ Chk("C09:rows", RowsFn(e) = b.st.cnt)
           /\ Chk("C09:num-active", e.n = Cardinality(DOMAIN b.st.cnt))
           /\ Chk("C09:lg-max", e.lgMax = b.st.lgMax)
           /\ RowsOK(e.rows, b.st, e.off)
